@@ -105,7 +105,12 @@ def parseTrace (s : String) : Option (List Call) :=
 
 def showOk (b : Bool) : String := if b then "ok" else "err"
 
-def handle (toks : List String) : String :=
+def handle (toks0 : List String) : String :=
+  -- the Parquet binary uses its own op names (replay lines are routed by op)
+  let toks := match toks0 with
+    | "pqwfault" :: r => "wfault" :: r
+    | "pqrfault" :: r => "rfault" :: r
+    | t => t
   match toks with
   | ["ipcs", reader, _spec, legacy, eos, msgs, k] =>
     match parseList parseMsg msgs, k.toNat? with
